@@ -37,7 +37,7 @@ impl<M: RawMutex + 'static> EventSut<M> {
 
 impl<M: RawMutex + 'static> Drop for EventSut<M> {
     fn drop(&mut self) {
-        self.futs.clear();
+        self.futs.drop_live();
         unsafe { drop(Box::from_raw(self.raw)) };
     }
 }
